@@ -508,6 +508,127 @@ fn run_concurrent_eval(cx: &mut CaseCx, _case: &Value) {
   cx.nontrivial(1);
 }
 
+
+/// A server object that is REUSED: `standby.clone_from(&primary)` must make the standby the same value
+/// as `primary.clone()`, whatever the standby was before (same key with more / fewer punctures, another
+/// key, another tag set, an imported state).
+fn run_object_reuse(cx: &mut CaseCx, case: &Value) {
+  let b = setup(cx);
+  let mut hists: Vec<Vec<u8>> = vec![vec![]];
+  for &a in TAGS.iter() {
+    hists.push(vec![a]);
+    for &c in TAGS.iter() {
+      if a != c {
+        hists.push(vec![a, c]);
+      }
+    }
+  }
+  let si = case["src"].as_u64().unwrap() as usize % hists.len();
+  let src_path = hists[si].clone();
+  let mut src = Inst { s: b.initial.clone(), punct: BTreeSet::new() };
+  for &t in &src_path {
+    if src.s.puncture(t).is_ok() {
+      src.punct.insert(t);
+    }
+  }
+  let src_export = export_bytes(&src.s).ok().map(|x| canon_export(&x));
+  // destinations
+  cx.entropy(3);
+  let mut dests: Vec<(String, pp::Server)> = vec![];
+  for h in hists.iter().take(9) {
+    let mut d = b.initial.clone();
+    for &t in h {
+      let _ = d.puncture(t);
+    }
+    dests.push((format!("same key, punctured {:?}", h), d));
+  }
+  for h in [vec![0u8, 128], vec![255, 1, 2], vec![0, 1, 2, 6, 128, 255]] {
+    let mut d = b.initial.clone();
+    for &t in &h {
+      let _ = d.puncture(t);
+    }
+    dests.push((format!("same key, punctured {:?}", h), d));
+  }
+  dests.push(("another key, every tag punctured".into(), b.foreign_punctured.clone()));
+  dests.push(("another key, same tags, fresh".into(), pp::Server::new(REGISTERED.to_vec()).expect("server")));
+  let mut other = pp::Server::new(REGISTERED.to_vec()).expect("server");
+  let _ = other.puncture(1);
+  let _ = other.puncture(128);
+  dests.push(("another key, same tags, punctured [1, 128]".into(), other));
+  dests.push(("another key, tags [9]".into(), pp::Server::new(vec![9]).expect("server")));
+  let mut imp = pp::Server::new(vec![9]).expect("server");
+  if let Ok(bytes) = export_bytes(&b.initial) {
+    let _ = import_into(&mut imp, &bytes);
+  }
+  let _ = imp.puncture(6);
+  dests.push(("a restored copy of the same key, punctured [6]".into(), imp));
+  for (dname, d0) in dests.iter() {
+    let mut dst = d0.clone();
+    // warm up the standby
+    for &t in TAGS.iter() {
+      let _ = guard(|| dst.eval(&b.points[0], t, false).is_ok());
+    }
+    cx.eval();
+    if let Err(p) = guard(|| dst.clone_from(&src.s)) {
+      cx.viol("C14/object-reuse/clone_from-panicked", p, json!({"primary_punctured": src_path, "standby": dname}));
+      continue;
+    }
+    let before = cx.viols.len();
+    let hist: Vec<Act> = src_path.iter().map(|&t| Act::Puncture(0, t)).collect();
+    let inst = Inst { s: dst, punct: src.punct.clone() };
+    check_instance(cx, 1, &inst, &b, &hist);
+    if cx.viols.len() == before {
+      check_touched(cx, 1, &inst, &b, &hist);
+    }
+    if cx.viols.len() == before && export_bytes(&inst.s).ok().map(|x| canon_export(&x)) != src_export {
+      cx.viol("C14/object-reuse/key-state-differs", "after standby.clone_from(&primary) the standby exports another key state than the primary", json!({"primary_punctured": src_path, "standby": dname}));
+    }
+    cx.count("states", 1);
+    cx.count("transitions", 1);
+    for &t in TAGS.iter() {
+      if cx.viols.len() > before {
+        break;
+      }
+      if src.punct.contains(&t) {
+        continue;
+      }
+      let mut n = inst.clone();
+      cx.eval();
+      if guard(|| n.s.puncture(t).is_ok()) != Ok(true) {
+        cx.viol("C14/puncture-refused", format!("puncturing tag {} failed on the overwritten standby", t), json!({"primary_punctured": src_path, "standby": dname}));
+        continue;
+      }
+      n.punct.insert(t);
+      let mut h2 = hist.clone();
+      h2.push(Act::Puncture(1, t));
+      check_instance(cx, 1, &n, &b, &h2);
+      // the primary is unaffected by what happens to the standby
+      check_instance(cx, 0, &src, &b, &h2);
+      let mut s2 = src.s.clone();
+      let _ = s2.puncture(t);
+      if cx.viols.len() == before && export_bytes(&n.s).ok().map(|x| canon_export(&x)) != export_bytes(&s2).ok().map(|x| canon_export(&x)) {
+        cx.viol("C14/object-reuse/key-state-differs", format!("after standby.clone_from(&primary) and puncturing tag {} the standby exports another key state than primary.clone() after the same puncture", t), json!({"primary_punctured": src_path, "standby": dname, "then_puncture": t}));
+      }
+      cx.count("states", 1);
+      cx.count("transitions", 1);
+    }
+    for v in cx.viols.iter_mut().skip(before) {
+      if !v.key.starts_with("C14/object-reuse") {
+        v.key = format!("C14/object-reuse/{}", v.key.trim_start_matches("C14/"));
+        v.what = format!("server object overwritten with clone_from (standby was: {}; primary had punctured {:?}; 'instance 1' is the overwritten standby): {}", dname, src_path, v.what);
+      }
+    }
+    if cx.viols.len() > before {
+      return;
+    }
+  }
+  cx.nontrivial(fnv(&src_path) ^ si as u64);
+  cx.outcome("clone_from");
+  if si == 0 {
+    cx.sample(json!({"primary_histories": hists.len(), "standbys": dests.iter().map(|d| d.0.clone()).collect::<Vec<_>>()}));
+  }
+}
+
 /// replay of one recorded history (also used as the "plain unit test" form of a counterexample)
 fn run_history(cx: &mut CaseCx, case: &Value) {
   let path: Vec<Act> = serde_json::from_value(case["history"].clone()).unwrap();
@@ -576,6 +697,13 @@ pub fn spec() -> PropSpec {
         gen: |_| vec![json!({})],
         run: run_concurrent_eval,
         min_counts: &[("concurrent_rounds", 6)],
+      },
+      Check {
+        name: "object-reuse",
+        rule: "standby.clone_from(&primary) for every primary history (all ordered puncture sequences of length <= 2 over the 8 tags: 65) and 17 standbys (same key with fewer / more / all punctures, another key fresh / punctured / with other tags, a restored copy): the overwritten standby satisfies the full invariant of the PRIMARY's history (answers, original values, public key, proofs, export/import), exports the primary's key state, and after every one-step continuation equals primary.clone() after the same step; the primary is unaffected",
+        gen: |_| (0..65u64).map(|i| json!({"src": i})).collect(),
+        run: run_object_reuse,
+        min_counts: &[("states", 3000)],
       },
       Check {
         name: "fixed-histories",
